@@ -20,6 +20,10 @@ type oracle struct {
 
 	sync.Mutex // Guards committedTxns/intentTable cleanup and conflict checks.
 	nextTxnTs  atomic.Uint64
+	// zeroReaders counts active transactions reading at timestamp 0 (an empty
+	// database before its first commit). The read watermark cannot track index 0,
+	// so conflict history must not be discarded while one of them is in flight.
+	zeroReaders atomic.Int64
 
 	// Used to block NewTransaction, so all previous commits ars visible to a new read.
 	txnMark *utils.WaterMark
@@ -130,13 +134,23 @@ func (o *oracle) txnMetricsSnapshot() metrics.TxnMetrics {
 }
 
 func (o *oracle) readTs() uint64 {
+	// Choosing the snapshot and registering it with the read mark must be one
+	// step with respect to commits: newCommitTs moves nextTxnTs and prunes the
+	// conflict history under the same lock, so the mark can never already be
+	// past the timestamp registered here.
+	verifhook.BeforeLock(&o.Mutex)
+	o.Lock()
 	readTs := o.nextTxnTs.Load() - 1
 	verifhook.Yield(o, "orc.readts.loaded")
 	if last := o.txnMark.LastIndex(); last < readTs {
 		readTs = last
 	}
 	verifhook.Yield(o, "orc.readts.clamped")
+	if readTs == 0 {
+		o.zeroReaders.Add(1)
+	}
 	o.readMark.Begin(readTs)
+	o.Unlock()
 
 	// Wait for all txns which have no conflicts, have been assigned a commit
 	// timestamp and are going through the write to value log and LSM tree
@@ -223,6 +237,9 @@ func (o *oracle) newCommitTs(txn *Txn) (uint64, bool) {
 func (o *oracle) doneRead(txn *Txn) {
 	if !txn.doneRead {
 		txn.doneRead = true
+		if txn.readTs == 0 {
+			o.zeroReaders.Add(-1)
+		}
 		o.readMark.Done(txn.readTs)
 	}
 }
@@ -231,6 +248,9 @@ func (o *oracle) cleanupCommittedTransactions() { // Must be called under o.Lock
 	if !o.detectConflicts {
 		// When detectConflicts is set to false, we do not store any
 		// committedTxns and so there's nothing to clean up.
+		return
+	}
+	if o.zeroReaders.Load() > 0 {
 		return
 	}
 	// Same logic as discardAtOrBelow but unlocked
